@@ -1,0 +1,14 @@
+//go:build verif
+
+package goose
+
+// VerifHook, when non-nil, is called at instrumented points of the package
+// translation workers. It exists only in verification builds (build tag
+// "verif") and lets an external harness observe and gate worker schedules.
+var VerifHook func(point string, worker int, pkgPath string)
+
+func verifHook(point string, worker int, pkgPath string) {
+	if h := VerifHook; h != nil {
+		h(point, worker, pkgPath)
+	}
+}
